@@ -45,7 +45,7 @@ fn word_class(u: &mut Unstructured) -> u64 {
 
 pub fn n_class(u: &mut Unstructured) -> usize {
     let d = u.int_in_range(0usize..=2).unwrap_or(1);
-    match u.int_in_range(0u8..=11).unwrap_or(0) {
+    match u.int_in_range(0u8..=12).unwrap_or(0) {
         0 | 1 => u.int_in_range(0usize..=300).unwrap_or(0),
         2 => ((1usize << u.int_in_range(1u32..=39).unwrap_or(1)) + d).saturating_sub(1),
         3 => 99_999 + d,
@@ -55,6 +55,8 @@ pub fn n_class(u: &mut Unstructured) -> usize {
         7 => 19_999_999 + d,
         8 => u.int_in_range(100_000usize..=800_000).unwrap_or(100_000),
         9 => u.int_in_range(0usize..=3_000_000).unwrap_or(0),
+        // shards at the capacity of the 32-bit vertex type: (l + 2) << log2_seg_size close to 2^32
+        10 => [1usize, 2, 4, 8][u.int_in_range(0usize..=3).unwrap_or(0)] * u.int_in_range(3_800_000_000usize..=3_900_000_000).unwrap_or(3_870_000_000),
         _ => {
             // log-uniform up to 10^12
             let e = u.int_in_range(0u32..=39).unwrap_or(0);
@@ -64,7 +66,8 @@ pub fn n_class(u: &mut Unstructured) -> usize {
     }
 }
 
-const EPS: [f64; 4] = [0.001, 0.0001, 0.01, 0.1];
+// small epsilons make sharding conservative: single shards close to the 2^32-vertex capacity become reachable
+const EPS: [f64; 8] = [0.001, 0.0001, 0.01, 0.1, 0.00001, 0.000025, 0.000045, 0.000000001];
 
 fn is_capacity_panic(msg: &str) -> bool {
     msg.contains("does not support more than") || msg.contains("u32::MAX as usize + 1") || msg.contains("Self::Vertex::MAX") || msg.contains("TryFromIntError")
@@ -75,7 +78,7 @@ where
     E: ShardEdge<S, 3> + std::fmt::Debug + Serialize + Deserialize,
 {
     let n = n_class(u);
-    let eps = EPS[u.int_in_range(0usize..=3).unwrap_or(0)];
+    let eps = EPS[u.int_in_range(0usize..=7).unwrap_or(0)];
     let ms_sel: u16 = u.arbitrary().unwrap_or(0);
     let sigs: Vec<S> = (0..64).map(|_| S::make(word_class(u), word_class(u))).collect();
     cx.hash(&(name, n, eps.to_bits(), ms_sel, sigs.iter().map(|s| format!("{:?}", s)).collect::<Vec<_>>()));
@@ -103,7 +106,10 @@ where
             Ok(x) => x,
             Err(_) => {
                 let (loc, msg) = engine::take_panic().unwrap_or_default();
-                if is_capacity_panic(&msg) && n > max_n {
+                // the capacity assertions fire when a shard needs more than 2^32 vertices: expansion factor (>= 1.105, MWHC 1.23)
+                // times the largest shard, rounded up to whole segments (at most 3 segments of 2^25: 2.4%)
+                let cmin = if name.starts_with("Mwhc") { 1.23 } else { 1.105 };
+                if is_capacity_panic(&msg) && (n > max_n || max_shard as f64 * cmin * 1.03 >= 4_294_967_296.0) {
                     cx.label("capacity_discard");
                     continue;
                 }
